@@ -7,6 +7,7 @@ CONSTANTS
   IntVals2 <- FewIntVals
   ArgKinds <- AllArgKinds
   Kinds = {"method"}
+  NameModes <- AltNames
   ConstMethods = TRUE
   Fixed <- NoFix
 INVARIANT RefinesAndTies
